@@ -35,10 +35,14 @@ def seed():
         return 0
 
 
+_WORKDIRS = []
+
+
 def workdir(name):
     d = os.path.join(ROOT, "work", name + _tag())
     shutil.rmtree(d, ignore_errors=True)
     os.makedirs(d)
+    _WORKDIRS.append(d)
     return d
 
 
@@ -377,6 +381,14 @@ class Result:
         self.known.setdefault(finding_id, set()).add(what)
 
     def finish(self):
+        # scratch tables and traces are large: drop them once the verdict is in (VERIF_KEEP=1 keeps them for debugging)
+        if not os.environ.get("VERIF_KEEP"):
+            for wd in _WORKDIRS:
+                shutil.rmtree(os.path.join(wd, "tab"), ignore_errors=True)
+                for f in os.listdir(wd) if os.path.isdir(wd) else []:
+                    fp = os.path.join(wd, f)
+                    if os.path.isfile(fp) and os.path.getsize(fp) > 20000000:
+                        os.remove(fp)
         wall = time.time() - self.t0
         cov = dict(self.coverage)
         if self.drift:
